@@ -41,6 +41,10 @@ func main() {
 	}
 	w := bufio.NewWriterSize(out, 1<<20)
 	g := &Gen{Tier: tier, Thorough: tier == "thorough", R: NewRNG(seed ^ hashString(prop)), W: w, Stats: map[string]int{}}
+	if tier != "replay" {
+		g.PendingPath = os.Args[4] + ".pending"
+		os.Remove(g.PendingPath)
+	}
 	if corpus := os.Getenv("VERIF_CORPUS"); corpus != "" {
 		g.corpus(corpus)
 	}
@@ -59,6 +63,9 @@ func main() {
 		os.Exit(2)
 	}
 	out.Close()
+	if g.PendingPath != "" {
+		os.Remove(g.PendingPath)
+	}
 	if len(os.Args) > 5 {
 		b, _ := json.MarshalIndent(map[string]interface{}{"lines": g.N, "stats": g.Stats, "notes": g.Notes}, "", " ")
 		_ = os.WriteFile(os.Args[5], b, 0o644)
